@@ -1016,7 +1016,10 @@ def plist_attr(I, p, attr, lineno):
     if attr == 'extend':
         return bound('extend', lambda o: p.items.extend(iterate(I, o)))
     if attr == 'T':
-        return p
+        # the column layout is not represented (a symmetric 3x3 is its own transpose, eigvalsh obliges symmetry); only the fact is kept for np.sort
+        q = PList(p.items, p.kind)
+        q.transposed = not getattr(p, 'transposed', False)
+        return q
     if attr == 'shape':
         return (len(p.items),)
     if attr == 'ndim':
@@ -1420,26 +1423,64 @@ def np_isclose(I, a, b, rtol=1e-05, atol=1e-08, **kw):
     return _mk(I, z3.And(d <= RV(atol) + RV(rtol) * z3.If(bb >= 0, bb, -bb), -d <= RV(atol) + RV(rtol) * z3.If(bb >= 0, bb, -bb)), a, b)
 
 
-def np_all(I, x, **kw):
-    if isinstance(x, bool):
+def _elem_truth(x):
+    """elementwise truth value of a numeric operand: x != 0"""
+    if z3.is_bool(x.t):
         return x
-    x = lift(x)
+    return SV(realish(x.t) != 0, guard=x.guard, kind=x.kind)
+
+
+def np_all(I, x, **kw):
+    if isinstance(x, (bool, int, float)):
+        return bool(x)
+    x = _elem_truth(lift(x))
     if x.kind == 'scalar':
         return x
+    key = ('all', x.t.get_id(), None if x.guard is None else x.guard.get_id())
+    memo = I.__dict__.setdefault('_anyall_memo', {})
+    if key in memo:
+        return SV(memo[key][0])
     r = I.fresh('all', 'bool')
+    memo[key] = (r, x)                       # the reduction is a function of its operand: the same operand term gives the same symbol
     I.assume(z3.Implies(r, x.t if x.guard is None else z3.Implies(x.guard, x.t)))
     return SV(r)
 
 
 def np_any(I, x, **kw):
-    if isinstance(x, bool):
-        return x
-    x = lift(x)
+    if isinstance(x, (bool, int, float)):
+        return bool(x)
+    x = _elem_truth(lift(x))
     if x.kind == 'scalar':
         return x
+    key = ('any', x.t.get_id(), None if x.guard is None else x.guard.get_id())
+    memo = I.__dict__.setdefault('_anyall_memo', {})
+    if key in memo:
+        return SV(memo[key][0])
     r = I.fresh('any', 'bool')
+    memo[key] = (r, x)
     I.assume(z3.Implies(x.t if x.guard is None else z3.And(x.guard, x.t), r))
     return SV(r)
+
+
+def np_sort(I, x, axis=-1, **kw):
+    """np.sort along the last axis of a short vector of scalars, or of the transposed stack of k series (row-wise sort of an (n, k) array): a sorting network of
+    compare-exchange steps over the k items"""
+    if not isinstance(x, PList) or not x.items or len(x.items) > 6 or any(isinstance(v, PList) for v in x.items):
+        raise Unsupported("np.sort of this operand")
+    if axis not in (-1, 1):
+        raise Unsupported("np.sort along another axis")
+    items = [lift(v) for v in x.items]
+    kind = merge_kind(*items)
+    if kind != 'scalar' and not getattr(x, 'transposed', False):
+        raise Unsupported("np.sort within the rows of a stack of series")
+    ts = [realish(v.t) for v in items]
+    n = len(ts)
+    for i in range(n):
+        for j in range(n - 1 - i):
+            a, b = ts[j], ts[j + 1]
+            ts[j], ts[j + 1] = z3.If(a <= b, a, b), z3.If(a <= b, b, a)
+    out = PList([SV(t, kind=kind) for t in ts], 'vec')
+    return out
 
 
 def optimize_root(I, fun, x0=None, tol=None, **kw):
@@ -1980,7 +2021,7 @@ def make_libs(I):
     np_ = LibNS('np', {
         'asarray': L(np_asarray), 'array': L(np_array), 'fabs': L(np_abs), 'abs': L(np_abs), 'absolute': L(np_abs),
         'sign': L(np_sign), 'power': L(np_power), 'divide': L(np_divide), 'sqrt': L(np_sqrt), 'log10': L(np_log10), 'log': L(np_log),
-        'argmax': L(np_argext('max')), 'argmin': L(np_argext('min')),
+        'argmax': L(np_argext('max')), 'argmin': L(np_argext('min')), 'sort': L(np_sort),
         'ndim': Builtin('ndim', lambda x: 0 if (isinstance(x, (int, float, bool)) or (isinstance(x, SV) and x.kind == 'scalar')) else 1),
         'exp': L(np_exp), 'cos': L(np_cos), 'where': L(np_where), 'full_like': L(np_full_like),
         'ones_like': Builtin('ones_like', lambda x, **k: np_full_like(I, x, 1.0, dtype=1)),
